@@ -1621,16 +1621,22 @@ impl<'a, R: FileManager> FrontendCtx<'a, R> {
                     let mut is_ref = matches!(key.kind, RuntypeKind::Ref(_));
 
                     while is_ref {
-                        if let RuntypeKind::Ref(r) = &type_args[0].kind {
-                            let map = self
+                        // follow the alias chain from the current key (not from the first argument again)
+                        // and stop when the definition is not available yet
+                        let map = match &key.kind {
+                            RuntypeKind::Ref(r) => self
                                 .partial_validators
                                 .get(r)
                                 .and_then(|it| it.as_ref())
-                                .cloned();
-                            if let Some(schema) = map {
+                                .cloned(),
+                            _ => None,
+                        };
+                        match map {
+                            Some(schema) => {
                                 key = schema;
                                 is_ref = matches!(key.kind, RuntypeKind::Ref(_));
                             }
+                            None => break,
                         }
                     }
                     let key_clone = key.clone();
